@@ -366,3 +366,131 @@ func zzC07bMetadata() {
 	vf.Assert("subscribe-not-blocked", !blocked)
 	vf.Reach("end")
 }
+
+// zzAutoReply makes the scripted transport answer close requests (as the broker would) through
+// the real reply dispatcher.
+func zzAutoReply(c *ClientConn, tr *ZZFakeTransport) {
+	go c.readRequestLoop()
+	tr.OnWrite = func(m message.Message) error {
+		switch r := m.(type) {
+		case *message.UpstreamCloseRequest:
+			c.msgRequestCh <- &message.UpstreamCloseResponse{RequestID: r.RequestID, ResultCode: message.ResultCodeSucceeded}
+		case *message.DownstreamCloseRequest:
+			c.msgRequestCh <- &message.DownstreamCloseResponse{RequestID: r.RequestID, ResultCode: message.ResultCodeSucceeded}
+		}
+		return nil
+	}
+}
+
+// C07.c: routing follows the table as it is when a message arrives: after a stream is closed or its
+// alias is registered again (alias reuse), later messages go where the current table says — and the
+// lifecycle operation on one stream leaves the other stream's entries alone.
+func zzC07cUpstreamLifecycle() {
+	tr := ZZNewFakeTransport()
+	c := ZZNewClientConn(tr, nil)
+	zzAutoReply(c, tr)
+	ctx := context.Background()
+	a1, a2 := vf.U32("alias1"), vf.U32("alias2")
+	vf.Assume(a1 != a2)
+	var id1, id2 [16]byte
+	copy(id1[:], vf.BytesN("id1", 16))
+	copy(id2[:], vf.BytesN("id2", 16))
+	vf.Assume(id1 != id2)
+	c.openUpstream(ctx, message.QoSReliable, id1, a1)
+	c.openUpstream(ctx, message.QoSReliable, id2, a2)
+	ch1, _ := c.SubscribeUpstreamChunkAck(ctx, a1)
+	ch2, _ := c.SubscribeUpstreamChunkAck(ctx, a2)
+	go c.readUpstreamChunkAckLoop()
+	// first message (any alias)
+	m1 := vf.U32("msg1.alias")
+	c.msgUpstreamChunkAckCh <- &message.UpstreamChunkAck{StreamIDAlias: m1}
+	vf.Settle()
+	n1a, n2a := len(ch1), len(ch2)
+	vf.Assert("first-routed", (n1a == 1) == (m1 == a1) && (n2a == 1) == (m1 == a2))
+	// lifecycle operation on stream 1
+	op := vf.Choose("op", 2)
+	var chNew <-chan *message.UpstreamChunkAck
+	switch op {
+	case 0: // close stream 1
+		_, err := c.SendUpstreamCloseRequest(ctx, &message.UpstreamCloseRequest{StreamID: id1})
+		vf.Assert("close-ok", err == nil)
+		_, still := c.upstreams.acks[a1]
+		_, stillW := c.upstreams.messageWriters[a1]
+		_, stillA := c.upstreams.aliases[id1]
+		vf.Assert("closed-stream-entries-removed", !still && !stillW && !stillA)
+	case 1: // the broker hands alias 1 to a new stream
+		var id3 [16]byte
+		copy(id3[:], vf.BytesN("id3", 16))
+		vf.Assume(id3 != id1 && id3 != id2)
+		c.openUpstream(ctx, message.QoSReliable, id3, a1)
+		chNew, _ = c.SubscribeUpstreamChunkAck(ctx, a1)
+	}
+	// the other stream is untouched
+	got2, ok2 := c.upstreams.acks[a2]
+	vf.Assert("other-stream-ack-channel-kept", ok2 && (<-chan *message.UpstreamChunkAck)(got2) == ch2)
+	_, w2 := c.upstreams.messageWriters[a2]
+	al2, okAl2 := c.upstreams.aliases[id2]
+	vf.Assert("other-stream-writer-and-alias-kept", w2 && okAl2 && al2 == a2)
+	// second message
+	m2 := vf.U32("msg2.alias")
+	msg2 := &message.UpstreamChunkAck{StreamIDAlias: m2}
+	c.msgUpstreamChunkAckCh <- msg2
+	vf.Settle()
+	d1, d2 := len(ch1)-n1a, len(ch2)-n2a
+	vf.Assert("other-stream-still-gets-its-acks", (d2 == 1) == (m2 == a2))
+	if op == 0 {
+		vf.Assert("closed-stream-gets-nothing", d1 == 0)
+	} else {
+		vf.Assert("old-channel-of-reused-alias-gets-nothing", d1 == 0)
+		vf.Assert("reused-alias-routes-to-the-new-stream", (len(chNew) == 1) == (m2 == a1))
+	}
+	vf.Assert("lock-free", vf.RUnlocked(c.upstreams.mu))
+	vf.Reach("end")
+}
+
+func zzC07cDownstreamLifecycle() {
+	tr := ZZNewFakeTransport()
+	c := ZZNewClientConn(tr, nil)
+	zzAutoReply(c, tr)
+	ctx := context.Background()
+	a1, a2 := vf.U32("alias1"), vf.U32("alias2")
+	vf.Assume(a1 != a2)
+	var id1, id2 [16]byte
+	copy(id1[:], vf.BytesN("id1", 16))
+	copy(id2[:], vf.BytesN("id2", 16))
+	vf.Assume(id1 != id2)
+	ch1, e1 := c.SubscribeDownstreamChunk(ctx, a1, message.QoSReliable)
+	ch2, e2 := c.SubscribeDownstreamChunk(ctx, a2, message.QoSReliable)
+	vf.Assume(e1 == nil && e2 == nil)
+	c.downstreams.aliases[id1], c.downstreams.aliases[id2] = a1, a2
+	go c.readDownstreamChunkLoop()
+	m1 := vf.U32("msg1.alias")
+	c.msgDownstreamChunkCh <- &message.DownstreamChunk{StreamIDAlias: m1}
+	vf.Settle()
+	n1a, n2a := len(ch1), len(ch2)
+	vf.Assert("first-routed", (n1a == 1) == (m1 == a1) && (n2a == 1) == (m1 == a2))
+	_, err := c.SendDownstreamCloseRequest(ctx, &message.DownstreamCloseRequest{StreamID: id1})
+	vf.Assert("close-ok", err == nil)
+	_, still := c.downstreams.dps[a1]
+	vf.Assert("closed-stream-entries-removed", !still)
+	reuse := vf.Choose("alias.reused", 2) == 1
+	var chNew <-chan *message.DownstreamChunk
+	if reuse {
+		var e3 error
+		chNew, e3 = c.SubscribeDownstreamChunk(ctx, a1, message.QoSReliable)
+		vf.Assert("alias-can-be-subscribed-again", e3 == nil)
+	}
+	got2, ok2 := c.downstreams.dps[a2]
+	vf.Assert("other-stream-channel-kept", ok2 && (<-chan *message.DownstreamChunk)(got2) == ch2 && c.downstreams.aliases[id2] == a2)
+	m2 := vf.U32("msg2.alias")
+	c.msgDownstreamChunkCh <- &message.DownstreamChunk{StreamIDAlias: m2}
+	vf.Settle()
+	d1, d2 := len(ch1)-n1a, len(ch2)-n2a
+	vf.Assert("other-stream-still-gets-its-chunks", (d2 == 1) == (m2 == a2))
+	vf.Assert("closed-stream-channel-gets-nothing", d1 == 0)
+	if reuse {
+		vf.Assert("reused-alias-routes-to-the-new-subscription", (len(chNew) == 1) == (m2 == a1))
+	}
+	vf.Assert("lock-free", vf.RUnlocked(c.downstreams.mu))
+	vf.Reach("end")
+}
